@@ -744,6 +744,89 @@ def r06i(ctx):
         raise AnalysisError(f"R06i: only {n} int test(s) found on the typed-value path")
 
 
+_VALUE_OPTIONS = {"cell_type", "value_type", "currency", "style", "text", "formula"}
+
+
+def r06j(ctx):
+    """The options of a typed value arrive under their own name.
+
+    The value-setting shortcuts hand `cell_type`, `currency`, `style` … on to the setter below them.  The setters do not agree on the order of
+    those parameters (Row.set_value: style, cell_type, currency — Table.set_value: cell_type, currency, style), so a positional hand-over that
+    is right for one callee puts the style into the value type of another: `office:value-type="ce1"` is written and no reader accepts the
+    cell.  Rule: wherever a function passes one of its own parameters named cell_type / value_type / currency / style / text / formula
+    *positionally* to a function of the package, every function of that name binds it to a parameter of the same name.
+    """
+    repo = ctx.repo
+    ctx.rule("R06j", "value options (cell_type, currency, style …) passed positionally land on the parameter of the same name", floor=5)
+    from ..registry import build_registry
+    reg = build_registry(repo)
+    byname: dict[str, list[FuncInfo]] = {}
+    for g in repo.all_funcs():
+        if g.kind not in ("getter", "setter", "nested"):
+            byname.setdefault(g.name, []).append(g)
+    n = 0
+    for f in repo.all_funcs():
+        own = {a.arg for a in f.all_params()} & _VALUE_OPTIONS
+        if not own:
+            continue
+        for c in walk_no_nested(f.node):
+            if not (isinstance(c, ast.Call) and c.args) or any(isinstance(a, ast.Starred) for a in c.args):
+                continue
+            cands = byname.get(call_name(c), [])
+            if not cands:
+                continue
+            method = isinstance(c.func, ast.Attribute)
+            # the receiver's class, when a local is bound once from a call whose candidates all declare the class they return
+            if method and isinstance(c.func.value, ast.Name) and c.func.value.id != "self":
+                defs = [a.value for a in walk_no_nested(f.node) if isinstance(a, ast.Assign) and any(isinstance(t, ast.Name) and t.id == c.func.value.id for t in a.targets)]
+                if len(defs) == 1 and isinstance(defs[0], ast.Call):
+                    makers = byname.get(call_name(defs[0]), [])
+                    classes = set()
+                    for m_ in makers:
+                        if m_.node.returns is not None:
+                            classes |= {x.id for x in ast.walk(m_.node.returns) if isinstance(x, ast.Name) and repo.find_class(x.id) is not None}
+                    narrowed = [k.lookup(call_name(c)) for k in (repo.find_class(n_) for n_ in sorted(classes)) if k.lookup(call_name(c)) is not None]
+                    if not narrowed:
+                        # the annotation says Element: the tag the getter queries names the registered class
+                        import re as _re
+                        tags = set()
+                        for m_ in makers:
+                            for k_ in ast.walk(m_.node):
+                                if isinstance(k_, ast.Constant) and isinstance(k_.value, str):
+                                    mt = _re.fullmatch(r"(?:descendant::|//)?([a-z]+:[a-z-]+)", k_.value)
+                                    if mt:
+                                        tags.add(mt.group(1))
+                        ks = {reg.tag2cls[t_].name: reg.tag2cls[t_] for t_ in tags if t_ in reg.tag2cls}
+                        narrowed = [k.lookup(call_name(c)) for k in ks.values() if k.lookup(call_name(c)) is not None]
+                    if narrowed:
+                        cands = narrowed
+            elif method and isinstance(c.func.value, ast.Name) and c.func.value.id == "self" and f.cls is not None and f.cls.lookup(call_name(c)) is not None:
+                cands = [f.cls.lookup(call_name(c))]
+            for i, a in enumerate(c.args):
+                if not (isinstance(a, ast.Name) and a.id in own):
+                    continue
+                wrong = []
+                for g in cands:
+                    ps = [x.arg for x in g.node.args.posonlyargs + g.node.args.args]
+                    if method and ps and ps[0] in ("self", "cls"):
+                        ps = ps[1:]
+                    if a.id in ps and (i >= len(ps) or ps[i] != a.id):
+                        wrong.append((g, ps[i] if i < len(ps) else "?"))
+                relevant = any(a.id in [x.arg for x in g.node.args.posonlyargs + g.node.args.args] for g in cands) or wrong
+                if not relevant:
+                    continue
+                n += 1
+                bad = bool(wrong) and len(wrong) == len(cands)
+                ctx.instance("R06j", f"{f.file}:{f.ident}", f"{norm(c, 40)}: `{a.id}` at position {i}", ok=not bad, nontrivial=True, line=c.lineno)
+                if bad:
+                    g, other = wrong[0]
+                    ctx.report("R06j", f, c, f"{call_name(c)}(… {a.id} @ {i})",
+                               f"{f.ident} passes its `{a.id}` as positional argument {i} of `{call_name(c)}`, where {g.ident} expects `{other}`: the options of the typed value are crossed "
+                               f"(a style name written as the value type, a currency as the style …) and the cell does not read back")
+    if n < 5:
+        raise AnalysisError(f"R06j: only {n} positional hand-over(s) of value options found")
+
+
 def run(ctx):
     r06a(ctx)
     r06b(ctx)
@@ -754,6 +837,7 @@ def run(ctx):
     r06g(ctx)
     r06h(ctx)
     r06i(ctx)
+    r06j(ctx)
     # a typed string lives in an attribute value: serialising the element must not take anything out of it (rule shared with C12)
     from ..registry import build_registry
     from .c12 import r12o
@@ -769,6 +853,12 @@ from ..selftest import Seed, unparse_seed  # noqa: E402
 
 _ET = "src/odfdo/element_typed.py"
 SEEDS = [
+    Seed("NamedRange.set_value hands its options over in Row.set_value's order", "fault", "src/odfdo/table.py",
+         "        table.set_value(  # type: ignore\n            coord=self.start,\n            value=value,\n            cell_type=cell_type,\n            currency=currency,\n            style=style,\n        )",
+         "        table.set_value(self.start, value, style, cell_type, currency)  # type: ignore", "R06j"),
+    Seed("NamedRange.set_value hands its options over positionally in Table.set_value's order", "neutral", "src/odfdo/table.py",
+         "        table.set_value(  # type: ignore\n            coord=self.start,\n            value=value,\n            cell_type=cell_type,\n            currency=currency,\n            style=style,\n        )",
+         "        table.set_value(self.start, value, cell_type, currency, style)  # type: ignore"),
     Seed("VarSet.set_value keeps the numeric type of the field for any int", "fault", "src/odfdo/variable.py",
          "        display = self.get_attribute(\"text:display\")\n        self.clear()\n        text = self.set_value_and_type(value=value)",
          "        display = self.get_attribute(\"text:display\")\n        kept = self.get_attribute_string(\"office:value-type\") if isinstance(value, (int, float)) else None\n        self.clear()\n        text = self.set_value_and_type(value=value, value_type=kept)", "R06i"),
